@@ -1,5 +1,8 @@
 import VlsModel.Model.Hmac
 import VlsModel.Gen.HmacFn
+import VlsModel.Gen.FnPersistMod
+import VlsModel.Gen.FnHmacRs
+import VlsModel.Gen.FnLssUtil
 import VlsModel.Lemmas.FnGen
 /-
 C17 — the hand-written HMAC-input model (`Model/Hmac.lean`: `encRec`, `encShared`, `sharedTag`, `valueTag`, `Helper`,
@@ -336,5 +339,301 @@ theorem C17_fn_init_state_refuses (mac : Mac) (e : Bytes)
 /-- non-vacuity: a one-record list and a stored value -/
 example : Core.compute_shared_hmac (fun k m => k ++ m) [1] [2] ([⟨[3], 4, [5]⟩].map toGen)
     = [1, 1, 2, 3, 0, 0, 0, 0, 0, 0, 0, 4, 5] := by decide
+
+/-! ## Round 9: `Mutations` and `ExternalPersistHelper::new` through rs2lean (`Gen/FnPersistMod.lean`)
+
+`Mutations` is the newtype every record list passes through between the wire and the tag functions (`lss.rs::get` →
+`Mutations::from_vec` → `check_hmac`; the commit log → `Mutations::from_vec` → `client_hmac`).  The tuple struct is read as
+its component (target key `tuple_structs`), so the generated definitions say what the constructors and accessors do to
+the **list**: nothing.  A constructor that sorts, deduplicates or truncates (seed C17-r3-1) changes the generated text
+and these equalities stop holding — the tag would then be computed over a list other than the one received. -/
+
+open VlsModel.Gen.FnPersistMod (Mutations.new Mutations.from_vec Mutations.add Mutations.inner Mutations.into_inner
+  Mutations.is_empty Mutations.len)
+
+/-- the record type of the rs2lean translation (keys as strings, bytes as `Nat`s) -/
+abbrev RsRec := String × (Nat × List Nat)
+
+theorem C17_fn_mutations_new : Mutations.new = ([] : List RsRec) := rfl
+
+/-- `from_vec` keeps the list exactly: same records, same order, same multiplicity -/
+theorem C17_fn_mutations_from_vec (l : List RsRec) : Mutations.from_vec l = l := rfl
+
+/-- `add` appends exactly one record at the end -/
+theorem C17_fn_mutations_add (m : List RsRec) (k : String) (v : Nat) (x : List Nat) :
+    Mutations.add m k v x = m ++ [(k, (v, x))] := rfl
+
+theorem C17_fn_mutations_inner (m : List RsRec) : Mutations.inner m = m := rfl
+theorem C17_fn_mutations_into_inner (m : List RsRec) : Mutations.into_inner m = m := rfl
+theorem C17_fn_mutations_is_empty (m : List RsRec) : Mutations.is_empty m = m.isEmpty := rfl
+theorem C17_fn_mutations_len (m : List RsRec) : Mutations.len m = m.length := rfl
+
+/-- what is taken out is what was put in, for every way of building the value: the list that reaches
+    `compute_shared_hmac` (through `iter()` = the same component) is the list received / logged -/
+theorem C17_fn_mutations_roundtrip (l : List RsRec) :
+    Mutations.into_inner (Mutations.from_vec l) = l ∧ Mutations.inner (Mutations.from_vec l) = l
+      ∧ Mutations.into_inner (l.foldl (fun m r => Mutations.add m r.1 r.2.1 r.2.2) Mutations.new) = l := by
+  refine ⟨rfl, rfl, ?_⟩
+  have : ∀ (acc : List RsRec), l.foldl (fun m r => Mutations.add m r.1 r.2.1 r.2.2) acc = acc ++ l := by
+    induction l with
+    | nil => intro acc; simp
+    | cons r rs ih =>
+      intro acc
+      rw [List.foldl_cons, ih, C17_fn_mutations_add]
+      simp
+  simpa [C17_fn_mutations_into_inner, C17_fn_mutations_new] using this []
+
+/-- the helper structure of the rs2lean translation against the model's (bytes as `Nat`s) -/
+def toRsH (h : Helper) : Gen.FnPersistMod.ExternalPersistHelper :=
+  { shared_secret := h.secret.map UInt8.toNat, last_nonce := h.lastNonce.map UInt8.toNat }
+
+/-- `ExternalPersistHelper::new`: the secret as given and the all-zero 32-byte nonce — the same function as
+    `C17_fn_helper_new` (byte-assembly translator), now also from rs2lean -/
+theorem C17_fn_rs_helper_new (secret : Bytes) :
+    Gen.FnPersistMod.ExternalPersistHelper.new (secret.map UInt8.toNat) = toRsH (Helper.new secret) := by
+  simp [Gen.FnPersistMod.ExternalPersistHelper.new, toRsH, Helper.new]
+
+example : Mutations.into_inner (Mutations.add (Mutations.from_vec [("b", (1, [2])), ("a", (0, []))]) "a" 3 [4])
+    = [("b", (1, [2])), ("a", (0, [])), ("a", (3, [4]))] := by decide
+
+/-! ## Round 9: the HMAC composition and the checks through rs2lean (`Gen/FnHmacRs.lean`, `Gen/FnLssUtil.lean`)
+
+The same functions as above, now translated by the general translator `rs2lean.py` (same semantics library, same
+translator differential as every other `Gen/Fn*.lean`) instead of the special-purpose byte-assembly translator.  The
+bitcoin_hashes engine is a declared *view* `HmacEngine { key, msg }` (`new` stores the key, `input` appends to `msg`:
+normalisation rules listed in the generated headers); what the engine finally computes is the uninterpreted external
+`fin : HmacEngine → bytes`, tied to the model's `mac` by `FinOf`; `str::as_bytes` is the uninterpreted `sb`.  Bytes are
+`Nat`s below 256 in rs2lean: `nb` embeds the model's byte strings. -/
+
+open VlsModel.Gen
+
+def nb (b : Bytes) : List Nat := b.map UInt8.toNat
+
+theorem nb_append (a b : Bytes) : nb (a ++ b) = nb a ++ nb b := by simp [nb]
+
+theorem nb_inj : ∀ (a b : Bytes), nb a = nb b → a = b := by
+  intro a
+  induction a with
+  | nil => intro b h; cases b <;> simp_all [nb]
+  | cons x xs ih =>
+    intro b h
+    cases b with
+    | nil => simp [nb] at h
+    | cons y ys =>
+      simp only [nb, List.map_cons, List.cons.injEq] at h
+      rw [UInt8.toNat_inj.mp h.1, ih ys h.2]
+
+theorem nb_beq (a b : Bytes) : (nb a == nb b) = (a == b) := by
+  by_cases h : a = b
+  · subst h; simp
+  · have : ¬ nb a = nb b := fun he => h (nb_inj a b he)
+    have h1 : (a == b) = false := beq_eq_false_iff_ne.mpr h
+    have h2 : (nb a == nb b) = false := beq_eq_false_iff_ne.mpr this
+    rw [h1, h2]
+
+/-- `u64::to_be_bytes` of rs2lean's runtime library (shifts, `Nat` bytes) is the model's `be64` -/
+theorem C17_fn_rs_be64 (v : Nat) : Rs.toBeBytes 8 v = nb (be64 v) := by
+  simp [Rs.toBeBytes, nb, be64, List.range, List.range.loop, Nat.shiftRight_eq_div_pow, UInt8.toNat_ofNat']
+
+/-- the external `fin` (= `Hmac::from_engine(e).to_byte_array()`) computes the model's `mac` of the fed bytes under the key -/
+def FinOf {E : Type} (mk : List Nat → List Nat → E) (mac : Mac) (fin : E → List Nat) : Prop :=
+  ∀ k m : Bytes, fin (mk (nb k) (nb m)) = nb (mac k m)
+
+/-- two lists related entry by entry -/
+inductive Rel2 {α β : Type} (R : α → β → Prop) : List α → List β → Prop
+  | nil : Rel2 R [] []
+  | cons {a : α} {b : β} {as : List α} {bs : List β} : R a b → Rel2 R as bs → Rel2 R (a :: as) (b :: bs)
+
+/-- a record of the code (`String` key through `sb`, `Nat` bytes) and the model's record -/
+def RecRel (sb : String → List Nat) (r : String × (Nat × List Nat)) (m : KVRec) : Prop :=
+  sb r.1 = nb m.key ∧ r.2.1 = m.ver ∧ r.2.2 = nb m.val
+
+/-! ### vls-core (`persist/mod.rs`) -/
+
+theorem C17_fn_rs_add_to_hmac (sb : String → List Nat) (s : String) (k : Bytes) (hk : sb s = nb k) (v : Nat) (x : Bytes)
+    (key : List Nat) (m : Bytes) :
+    FnHmacRs.add_to_hmac sb s v (nb x) ⟨key, nb m⟩ = ⟨key, nb (m ++ encRec ⟨k, v, x⟩)⟩ := by
+  simp [FnHmacRs.add_to_hmac, hk, encRec, nb_append, C17_fn_rs_be64, List.append_assoc]
+
+theorem rs_fold (sb : String → List Nat) (rs : List (String × (Nat × List Nat))) (ms : List KVRec)
+    (h : Rel2 (RecRel sb) rs ms) (key : List Nat) (m : Bytes) :
+    List.foldl (fun (e : FnHmacRs.HmacEngine) (r : String × (Nat × List Nat)) => FnHmacRs.add_to_hmac sb r.1 r.2.1 r.2.2 e)
+        ⟨key, nb m⟩ rs = ⟨key, nb (m ++ encRecs ms)⟩ := by
+  induction h generalizing m with
+  | nil => simp [encRecs]
+  | @cons r mr rs' ms' hr _ ih =>
+    obtain ⟨s, v, x⟩ := r
+    obtain ⟨h1, h2, h3⟩ := hr
+    have h2' : v = mr.ver := h2
+    have h3' : x = nb mr.val := h3
+    have h1' : sb s = nb mr.key := h1
+    subst h2'
+    simp only [List.foldl_cons]
+    rw [h3', C17_fn_rs_add_to_hmac sb s mr.key h1' mr.ver mr.val key m, ih]
+    simp [encRecs, List.append_assoc]
+
+/-- `compute_shared_hmac` = the MAC keyed with the secret over `secret ‖ nonce ‖ records` (no framing) -/
+theorem C17_fn_rs_compute_shared_hmac (sb : String → List Nat) (mac : Mac) (fin : FnHmacRs.HmacEngine → List Nat)
+    (hfin : FinOf FnHmacRs.HmacEngine.mk mac fin) (secret nonce : Bytes)
+    (rs : List (String × (Nat × List Nat))) (ms : List KVRec) (h : Rel2 (RecRel sb) rs ms) :
+    FnHmacRs.compute_shared_hmac sb fin (nb secret) (nb nonce) rs = nb (sharedTag mac secret nonce ms) := by
+  have hf := rs_fold sb rs ms h (nb secret) (secret ++ nonce)
+  simp only [FnHmacRs.compute_shared_hmac, sharedTag, encShared]
+  rw [show (fun (hmac_engine : FnHmacRs.HmacEngine) (x : String × (Nat × List Nat)) =>
+        match x with
+        | (key, (version, value)) =>
+          (let m_1 := FnHmacRs.add_to_hmac sb key version value hmac_engine; (let hmac_engine := m_1; hmac_engine)))
+      = (fun (e : FnHmacRs.HmacEngine) (r : String × (Nat × List Nat)) => FnHmacRs.add_to_hmac sb r.1 r.2.1 r.2.2 e) from by
+        funext e ⟨a, b, c⟩; rfl]
+  have h0 : ({ key := nb secret, msg := [] ++ nb secret ++ nb nonce } : FnHmacRs.HmacEngine) = ⟨nb secret, nb (secret ++ nonce)⟩ := by
+    simp [nb_append]
+  simp only [h0, hf]
+  rw [hfin]
+
+theorem C17_fn_rs_client_hmac (sb : String → List Nat) (mac : Mac) (fin : FnHmacRs.HmacEngine → List Nat)
+    (hfin : FinOf FnHmacRs.HmacEngine.mk mac fin) (hp : Helper)
+    (rs : List (String × (Nat × List Nat))) (ms : List KVRec) (h : Rel2 (RecRel sb) rs ms) :
+    FnHmacRs.ExternalPersistHelper.client_hmac sb fin ⟨nb hp.secret, nb hp.lastNonce⟩ rs = nb (hp.clientHmac mac ms) := by
+  simp only [FnHmacRs.ExternalPersistHelper.client_hmac, Helper.clientHmac, clientNonce]
+  exact C17_fn_rs_compute_shared_hmac sb mac fin hfin hp.secret [1] rs ms h
+
+theorem C17_fn_rs_server_hmac (sb : String → List Nat) (mac : Mac) (fin : FnHmacRs.HmacEngine → List Nat)
+    (hfin : FinOf FnHmacRs.HmacEngine.mk mac fin) (hp : Helper)
+    (rs : List (String × (Nat × List Nat))) (ms : List KVRec) (h : Rel2 (RecRel sb) rs ms) :
+    FnHmacRs.ExternalPersistHelper.server_hmac sb fin ⟨nb hp.secret, nb hp.lastNonce⟩ rs = nb (hp.serverHmac mac ms) := by
+  simp only [FnHmacRs.ExternalPersistHelper.server_hmac, Helper.serverHmac, serverNonce]
+  exact C17_fn_rs_compute_shared_hmac sb mac fin hfin hp.secret [2] rs ms h
+
+/-- `check_hmac`: the received tag compared, as a byte list, with the tag of exactly these records under the **stored**
+    nonce -/
+theorem C17_fn_rs_check_hmac (sb : String → List Nat) (mac : Mac) (fin : FnHmacRs.HmacEngine → List Nat)
+    (hfin : FinOf FnHmacRs.HmacEngine.mk mac fin) (hp : Helper)
+    (rs : List (String × (Nat × List Nat))) (ms : List KVRec) (h : Rel2 (RecRel sb) rs ms) (received : Bytes) :
+    FnHmacRs.ExternalPersistHelper.check_hmac sb fin ⟨nb hp.secret, nb hp.lastNonce⟩ rs (nb received)
+      = hp.checkHmac mac ms received := by
+  simp only [FnHmacRs.ExternalPersistHelper.check_hmac, Helper.checkHmac, accept]
+  rw [C17_fn_rs_compute_shared_hmac sb mac fin hfin hp.secret hp.lastNonce rs ms h, nb_beq]
+
+/-- `new_nonce`: the entropy source's output becomes the stored nonce and is the nonce handed out -/
+theorem C17_fn_rs_new_nonce {Ent : Type} (get : Ent → List Nat) (src : Ent) (hp : Helper) (e : Bytes) (he : get src = nb e) :
+    FnHmacRs.ExternalPersistHelper.new_nonce get ⟨nb hp.secret, nb hp.lastNonce⟩ src
+      = (⟨nb (hp.newNonce e).secret, nb (hp.newNonce e).lastNonce⟩, nb (hp.newNonce e).issued) := by
+  simp [FnHmacRs.ExternalPersistHelper.new_nonce, he, Helper.newNonce, Helper.issued]
+
+/-! ### lightning-storage-server (`lib/src/util.rs`) -/
+
+theorem C17_fn_rs_lss_add_to_hmac (sb : String → List Nat) (s : String) (k : Bytes) (hk : sb s = nb k) (v : Int) (x : Bytes)
+    (key : List Nat) (m : Bytes) :
+    FnLssUtil.add_to_hmac sb s v (nb x) ⟨key, nb m⟩ = ⟨key, nb (m ++ encRec ⟨k, verOf v, x⟩)⟩ := by
+  simp [FnLssUtil.add_to_hmac, hk, encRec, nb_append, C17_fn_rs_be64, verOf, List.append_assoc]
+
+/-- `compute_hmac` = the stored-value tag over `key ‖ be64(version) ‖ value` -/
+theorem C17_fn_rs_lss_compute_hmac (sb : String → List Nat) (mac : Mac) (fin : FnLssUtil.HmacEngine → List Nat)
+    (hfin : FinOf FnLssUtil.HmacEngine.mk mac fin) (secret : Bytes) (s : String) (k : Bytes) (hk : sb s = nb k)
+    (v : Int) (x : Bytes) :
+    FnLssUtil.compute_hmac sb fin (nb secret) s v (nb x) = nb (valueTag mac secret k (verOf v) x) := by
+  have h : FnLssUtil.add_to_hmac sb s v (nb x) ⟨nb secret, []⟩ = ⟨nb secret, nb ([] ++ encRec ⟨k, verOf v, x⟩)⟩ :=
+    C17_fn_rs_lss_add_to_hmac sb s k hk v x (nb secret) []
+  simp only [FnLssUtil.compute_hmac, valueTag, encValue]
+  rw [h, hfin]
+  simp [encRec]
+
+/-- an LSS record of the code against the model's record -/
+def LssRel (sb : String → List Nat) (r : String × FnLssUtil.Value) (m : KVRec) : Prop :=
+  sb r.1 = nb m.key ∧ verOf r.2.version = m.ver ∧ r.2.value = nb m.val
+
+theorem rs_lss_fold (sb : String → List Nat) (rs : List (String × FnLssUtil.Value)) (ms : List KVRec)
+    (h : Rel2 (LssRel sb) rs ms) (key : List Nat) (m : Bytes) :
+    List.foldl (fun (e : FnLssUtil.HmacEngine) (r : String × FnLssUtil.Value) => FnLssUtil.add_to_hmac sb r.1 r.2.version r.2.value e)
+        ⟨key, nb m⟩ rs = ⟨key, nb (m ++ encRecs ms)⟩ := by
+  induction h generalizing m with
+  | nil => simp [encRecs]
+  | @cons r mr rs' ms' hr _ ih =>
+    obtain ⟨s, val⟩ := r
+    obtain ⟨h1, h2, h3⟩ := hr
+    have h2' : verOf val.version = mr.ver := h2
+    have h3' : val.value = nb mr.val := h3
+    have h1' : sb s = nb mr.key := h1
+    simp only [List.foldl_cons]
+    rw [h3', C17_fn_rs_lss_add_to_hmac sb s mr.key h1' val.version mr.val key m, ih, h2']
+    simp [encRecs, List.append_assoc]
+
+/-- the LSS copy of `compute_shared_hmac` assembles the same input as the vls-core one -/
+theorem C17_fn_rs_lss_compute_shared_hmac (sb : String → List Nat) (mac : Mac) (fin : FnLssUtil.HmacEngine → List Nat)
+    (hfin : FinOf FnLssUtil.HmacEngine.mk mac fin) (secret nonce : Bytes)
+    (rs : List (String × FnLssUtil.Value)) (ms : List KVRec) (h : Rel2 (LssRel sb) rs ms) :
+    FnLssUtil.compute_shared_hmac sb fin (nb secret) (nb nonce) rs = nb (sharedTag mac secret nonce ms) := by
+  have hf := rs_lss_fold sb rs ms h (nb secret) (secret ++ nonce)
+  simp only [FnLssUtil.compute_shared_hmac, sharedTag, encShared]
+  rw [show (fun (hmac_engine : FnLssUtil.HmacEngine) (x : String × FnLssUtil.Value) =>
+        match x with
+        | (key, value) =>
+          (let m_1 := FnLssUtil.add_to_hmac sb key value.version value.value hmac_engine; (let hmac_engine := m_1; hmac_engine)))
+      = (fun (e : FnLssUtil.HmacEngine) (r : String × FnLssUtil.Value) => FnLssUtil.add_to_hmac sb r.1 r.2.version r.2.value e) from by
+        funext e ⟨a, b⟩; rfl]
+  have h0 : ({ key := nb secret, msg := [] ++ nb secret ++ nb nonce } : FnLssUtil.HmacEngine) = ⟨nb secret, nb (secret ++ nonce)⟩ := by
+    simp [nb_append]
+  simp only [h0, hf]
+  rw [hfin]
+
+theorem C17_fn_rs_lss_append_hmac_to_value (sb : String → List Nat) (mac : Mac) (fin : FnLssUtil.HmacEngine → List Nat)
+    (hfin : FinOf FnLssUtil.HmacEngine.mk mac fin) (secret : Bytes) (s : String) (k : Bytes) (hk : sb s = nb k)
+    (v : Int) (x : Bytes) :
+    FnLssUtil.append_hmac_to_value sb fin (nb secret) s v (nb x) = nb (prepareValue mac secret k (verOf v) x) := by
+  simp [FnLssUtil.append_hmac_to_value, prepareValue, C17_fn_rs_lss_compute_hmac sb mac fin hfin secret s k hk, nb_append]
+
+/-- `remove_and_check_hmac`: too short → `Err(())`; else the last 32 bytes must be, as a byte list, the tag of the rest
+    under exactly this key and version (`split_off` = slice + truncate, neither can panic behind the length guard) -/
+theorem C17_fn_rs_lss_remove_and_check_hmac (sb : String → List Nat) (mac : Mac) (fin : FnLssUtil.HmacEngine → List Nat)
+    (hfin : FinOf FnLssUtil.HmacEngine.mk mac fin) (secret : Bytes) (s : String) (k : Bytes) (hk : sb s = nb k)
+    (v : Int) (stored : Bytes) :
+    FnLssUtil.remove_and_check_hmac sb fin (nb secret) s v (nb stored)
+      = (outOf (processValue mac secret k (verOf v) stored)).map nb := by
+  unfold FnLssUtil.remove_and_check_hmac processValue
+  have hlen : (nb stored).length = stored.length := by simp [nb]
+  by_cases hl : stored.length < 32
+  · simp [hl, hlen, outOf, Rs.fail, Except.map]
+  · have h32 : 32 ≤ stored.length := by omega
+    have hle : stored.length - 32 ≤ stored.length := by omega
+    have htake : (nb stored).take (stored.length - 32) = nb (stored.take (stored.length - 32)) := by simp [nb, List.map_take]
+    have hdrop : (nb stored).drop (stored.length - 32) = nb (stored.drop (stored.length - 32)) := by simp [nb, List.map_drop]
+    have hsl : Rs.slice (nb stored) (stored.length - 32) stored.length = .ok (nb (stored.drop (stored.length - 32))) := by
+      simp only [Rs.slice, hlen, hle, Nat.le_refl, and_self, if_true]
+      rw [hdrop]
+      have : (nb (List.drop (stored.length - 32) stored)).length = stored.length - (stored.length - 32) := by simp [nb]
+      rw [List.take_of_length_le (by omega)]
+      rfl
+    simp only [hlen, hl, decide_false, Bool.false_eq_true, if_false, Rs.usub, h32, if_true, Rs.pure_eq, Rs.bind_ok, hsl, htake,
+      C17_fn_rs_lss_compute_hmac sb mac fin hfin secret s k hk, nb_beq, accept]
+    by_cases ht : valueTag mac secret k (verOf v) (List.take (stored.length - 32) stored) = List.drop (stored.length - 32) stored
+    · simp [ht, outOf, Except.map, pure, Except.pure]
+    · have ht' : ¬ List.drop (stored.length - 32) stored = valueTag mac secret k (verOf v) (List.take (stored.length - 32) stored) :=
+        fun h => ht h.symm
+      simp [ht, ht', outOf, Except.map, Rs.fail]
+
+/-- `prepare_value_for_put`: the authenticated value of the model, then the (uninterpreted) cipher layer -/
+theorem C17_fn_rs_lss_prepare_value_for_put (sb : String → List Nat) (mac : Mac) (fin : FnLssUtil.HmacEngine → List Nat)
+    (hfin : FinOf FnLssUtil.HmacEngine.mk mac fin) (crypt : List Nat → String → Int → List Nat → List Nat)
+    (secret : Bytes) (s : String) (k : Bytes) (hk : sb s = nb k) (ver : Int) (x : Bytes) :
+    FnLssUtil.prepare_value_for_put sb fin crypt (nb secret) s ⟨ver, nb x⟩
+      = ⟨ver, crypt (nb secret) s ver (nb (prepareValue mac secret k (verOf ver) x))⟩ := by
+  simp [FnLssUtil.prepare_value_for_put, C17_fn_rs_lss_append_hmac_to_value sb mac fin hfin secret s k hk]
+
+/-- `process_value_from_get`: the cipher layer is removed first, then exactly `remove_and_check_hmac` under the same key
+    and version; the value is replaced only on success -/
+theorem C17_fn_rs_lss_process_value_from_get (sb : String → List Nat) (mac : Mac) (fin : FnLssUtil.HmacEngine → List Nat)
+    (hfin : FinOf FnLssUtil.HmacEngine.mk mac fin) (crypt : List Nat → String → Int → List Nat → List Nat)
+    (secret : Bytes) (s : String) (k : Bytes) (hk : sb s = nb k) (val : FnLssUtil.Value) (c : Bytes)
+    (hc : crypt (nb secret) s val.version val.value = nb c) :
+    FnLssUtil.process_value_from_get crypt sb fin (nb secret) s val
+      = (outOf (processValue mac secret k (verOf val.version) c)).map (fun x => { val with value := nb x }) := by
+  simp only [FnLssUtil.process_value_from_get, hc, C17_fn_rs_lss_remove_and_check_hmac sb mac fin hfin secret s k hk]
+  cases processValue mac secret k (verOf val.version) c <;>
+    simp [outOf, bind, Except.bind, pure, Except.pure, Except.map]
+
+/-- non-vacuity: the concatenating "MAC" satisfies `FinOf`, and a one-record list is related to its model record -/
+example : FnHmacRs.compute_shared_hmac (fun _ => [97]) (fun e => e.key ++ e.msg) [1] [2] [("a", (4, [5]))]
+    = [1, 1, 2, 97, 0, 0, 0, 0, 0, 0, 0, 4, 5] := by
+  simp [FnHmacRs.compute_shared_hmac, FnHmacRs.add_to_hmac, Rs.toBeBytes, List.range, List.range.loop]
 
 end VlsModel.Props.C17Fn
